@@ -121,7 +121,7 @@ theorem toastTally_eq_buildInfo (relid : Nat) (chunks : List Chunk) :
     (toastTally relid chunks).uniqueValues = (buildInfo relid chunks).uniqueValues ∧
     (toastTally relid chunks).totalSize = (buildInfo relid chunks).totalSize := by
   refine ⟨rfl, rfl, ?_, rfl⟩
-  simp only [toastTally, buildInfo]
+  simp only [toastTally, buildInfo, buildInfoWith]
   have := foldl_groupInsert_keys chunks []
   simp only [List.map_nil] at this
   rw [← this, List.length_map]
